@@ -351,6 +351,94 @@ Proof.
     split; [exact Hp|]. rewrite notfound_proj, outline_proj, Hp. split; reflexivity.
 Qed.
 
+(** ** the set of entered files is closed under the reached include statements that are in the map *)
+Definition complete (g : N) (idx : list N) : Prop :=
+  forall sid tgt t, In (IInc sid true tgt) (items_of g) -> im_get sid (map_of g) = Some t -> In t idx.
+
+Definition grows2 (f : N) (its : list item) (cx cx' : ictx) : Prop :=
+  incl (indexed cx) (indexed cx') /\
+  (forall sid tgt t, In (IInc sid true tgt) its -> im_get sid (map_of f) = Some t -> In t (indexed cx')) /\
+  (forall g, In g (indexed cx') -> ~ In g (indexed cx) -> complete g (indexed cx')).
+
+Definition rec_ok2 (rec : N -> ictx -> outcome ictx) : Prop :=
+  forall g cx cx', rec g cx = Done cx' -> grows2 g (items_of g) cx cx'.
+
+Lemma complete_mono : forall g idx idx', complete g idx -> incl idx idx' -> complete g idx'.
+Proof. intros g idx idx' H Hi sid tgt t A B. apply Hi. eapply H; eauto. Qed.
+
+Lemma items_ok2 : forall rec, rec_ok2 rec ->
+  forall f its cx cx', index_items rec db f its cx = Done cx' -> grows2 f its cx cx'.
+Proof.
+  intros rec Hrec f. induction its as [|it r IH]; intros cx cx' H.
+  - cbn in H. injection H as <-. split; [apply incl_refl|]. split; [intros ? ? ? []|].
+    intros g A B. contradiction.
+  - destruct it as [sid reached tgt|nm]; cbn [index_items] in H.
+    + destruct reached.
+      * destruct (rim db f) as [m|] eqn:Em; [|discriminate].
+        assert (Hmap : map_of f = m) by (unfold map_of; rewrite Em; reflexivity).
+        destruct (im_get sid m) as [g|] eqn:Eg.
+        -- destruct (memN g (indexed cx)) eqn:Emem.
+           ++ apply memN_true in Emem. destruct (IH _ _ H) as [A [B C]].
+              split; [exact A|]. split; [|exact C].
+              intros s2 tg t [Hh|Ht] Hm; [|eapply B; eauto].
+              injection Hh as <- <-. apply A. rewrite Hmap in Hm. congruence.
+           ++ destruct (rec g (enter g cx)) as [cx2| |e] eqn:Er; try discriminate.
+              destruct (Hrec g _ _ Er) as [A2 [B2 C2]]. cbn [enter indexed] in A2, C2.
+              destruct (IH _ _ H) as [A [B C]].
+              assert (Hg2 : In g (indexed cx2)) by (apply A2; left; reflexivity).
+              split; [intros x Hx; apply A; apply A2; right; exact Hx|].
+              split.
+              ** intros s2 tg t [Hh|Ht] Hm; [|eapply B; eauto].
+                 injection Hh as <- <-. apply A. rewrite Hmap in Hm. assert (t = g) by congruence. subst t. exact Hg2.
+              ** intros h Hh Hn. destruct (in_dec N.eq_dec h (indexed cx2)) as [H2|H2].
+                 --- apply complete_mono with (idx := indexed cx2); [|exact A].
+                     destruct (N.eq_dec h g) as [->|Hne].
+                     +++ intros s2 tg t X Y. eapply B2; eauto.
+                     +++ apply C2; [exact H2|]. intros [E|E]; [congruence|contradiction].
+                 --- apply C; assumption.
+        -- destruct (IH _ _ H) as [A [B C]]. cbn [emit indexed] in A, C.
+           split; [exact A|]. split; [|exact C].
+           intros s2 tg t [Hh|Ht] Hm; [|eapply B; eauto].
+           injection Hh as <- <-. rewrite Hmap in Hm. congruence.
+      * destruct (IH _ _ H) as [A [B C]]. split; [exact A|]. split; [|exact C].
+        intros s2 tg t [Hh|Ht] Hm; [discriminate|eapply B; eauto].
+    + destruct (IH _ _ H) as [A [B C]]. cbn [emit indexed] in A, C.
+      split; [exact A|]. split; [|exact C].
+      intros s2 tg t [Hh|Ht] Hm; [discriminate|eapply B; eauto].
+Qed.
+
+Lemma index_file_ok2 : forall n, rec_ok2 (index_file n db).
+Proof.
+  induction n as [|n IH]; intros g cx cx' H; [discriminate|].
+  cbn [index_file] in H. unfold items_of.
+  destruct (fc db g) as [c|] eqn:Ec; [|discriminate].
+  eapply items_ok2; eauto.
+Qed.
+
+Theorem index_closed : forall fuel fset root tr,
+  sroot db = Some (fset, root) ->
+  index fuel db = Done tr ->
+  In root (files_of tr) /\ forall g, In g (files_of tr) -> complete g (files_of tr).
+Proof.
+  intros fuel fset root tr S H. unfold index in H. rewrite S in H.
+  destruct (index_file fuel db root {| indexed := [root]; trace := [EvFile root] |}) as [cx| |e] eqn:E;
+    try discriminate.
+  injection H as <-.
+  destruct (index_file_ok fuel root {| indexed := [root]; trace := [EvFile root] |} cx (or_introl eq_refl) E)
+    as [new [newidx [T [I [_ [S1 _]]]]]].
+  cbn [indexed trace] in T, I.
+  assert (Hfiles : forall g, In g (files_of (rev (trace cx))) <-> In g (indexed cx)).
+  { intro g. rewrite files_of_rev, <- in_rev, T, files_of_app, S1, I. cbn [files_of]. reflexivity. }
+  destruct (index_file_ok2 fuel root _ cx E) as [A [B C]]. cbn [indexed] in A, C.
+  split; [apply Hfiles; apply A; left; reflexivity|].
+  intros g Hg. apply Hfiles in Hg.
+  assert (Hc : complete g (indexed cx)).
+  { destruct (N.eq_dec g root) as [->|Hne].
+    - intros s2 tg t X Y. eapply B; eauto.
+    - apply C; [exact Hg|]. intros [Eq|[]]. congruence. }
+  intros s2 tg t X Y. apply Hfiles. eapply Hc; eauto.
+Qed.
+
 (** ** termination of the traversal *)
 Definition unidx (S : list N) (idx : list N) : nat :=
   length (filter (fun f => negb (memN f idx)) S).
